@@ -251,8 +251,7 @@ def r2_r4_phase_and_checkpoint(report, repo):
                     'evaluate_checkpoint', 'skip_checkpoint', False)
 
 
-def r3_sequences(report, repo):
-  rule = 'C02-R3'
+def r3_sequences(report, repo, rule='C02-R3', only_abortable=False):
   report.rule(rule, 'T-DTABLE: abortable sequence returns at the first node '
               'whose result != CONTINUE (else CONTINUE) and checks the abort '
               'flag before every node; teardown sequence accumulates with '
@@ -313,6 +312,8 @@ def r3_sequences(report, repo):
     return None
 
   lib.decision_table(report, rule, f, ['abort', 'nonc'], classify, spec)
+  if only_abortable:
+    return
 
   # teardown sequence
   f = repo.func(TE, 'TestExecutor._execute_teardown_sequence')
